@@ -17,6 +17,75 @@ theorem mul_comm (x y : F64) : mul x y = mul y x := by
 theorem fma_comm (x y z : F64) : fma x y z = fma y x z := by
   cases x <;> cases y <;> cases z <;> simp [fma, Nat.mul_comm, bne_comm]
 
+private def ord3 (p q : Int) : ROrdering := if p < q then .Less else if p = q then .Equal else .Greater
+private theorem ord3_gt (p q : Int) : (ord3 p q == .Greater) = (ord3 q p == .Less) := by
+  unfold ord3
+  rcases Int.lt_trichotomy p q with h | h | h
+  · have h2 : ¬ q < p := by omega
+    have h3 : ¬ q = p := by omega
+    simp only [h, h2, h3, if_true, if_false]; rfl
+  · subst h; simp only [Int.lt_irrefl, if_true, if_false]; try rfl
+  · have h2 : ¬ p < q := by omega
+    have h3 : ¬ p = q := by omega
+    simp only [h, h2, h3, if_true, if_false]; rfl
+private theorem ord3_eq (p q : Int) : (ord3 p q == .Equal) = (ord3 q p == .Equal) := by
+  unfold ord3
+  rcases Int.lt_trichotomy p q with h | h | h
+  · have h2 : ¬ q < p := by omega
+    have h3 : ¬ q = p := by omega
+    simp only [h, h2, h3, if_true, if_false]; rfl
+  · subst h; simp only [Int.lt_irrefl, if_true, if_false]; try rfl
+  · have h2 : ¬ p < q := by omega
+    have h3 : ¬ p = q := by omega
+    simp only [h, h2, h3, if_true, if_false]; rfl
+private theorem pc_fin (a c : Bool) (b d : Nat) : partial_cmp (fin a b) (fin c d) = some (ord3 (fin a b).toInt (fin c d).toInt) := rfl
+theorem gt_flip (x y : F64) : gt x y = lt y x := by
+  cases x <;> cases y <;> try (simp [gt, lt, partial_cmp]; done)
+  · rename_i s t; cases s <;> cases t <;> simp [gt, lt, partial_cmp] <;> rfl
+  · rename_i s t _; cases s <;> simp [gt, lt, partial_cmp] <;> rfl
+  · rename_i _ _ t; cases t <;> simp [gt, lt, partial_cmp] <;> rfl
+  · simp only [gt, lt, pc_fin]; simpa using ord3_gt _ _
+theorem lt_flip (x y : F64) : lt x y = gt y x := (gt_flip y x).symm
+theorem eq_flip (x y : F64) : eq x y = eq y x := by
+  cases x <;> cases y <;> try (simp [eq, partial_cmp]; done)
+  · rename_i s t; cases s <;> cases t <;> simp [eq, partial_cmp] <;> rfl
+  · rename_i s t _; cases s <;> simp [eq, partial_cmp] <;> rfl
+  · rename_i _ _ t; cases t <;> simp [eq, partial_cmp] <;> rfl
+  · simp only [eq, pc_fin]; simpa using ord3_eq _ _
+theorem ge_flip (x y : F64) : ge x y = le y x := by
+  have h1 := gt_flip x y; have h2 := eq_flip x y
+  simp only [gt, lt, eq] at h1 h2; simp only [ge, le, h1, h2]
+theorem le_flip (x y : F64) : le x y = ge y x := (ge_flip y x).symm
+
+private def flipO : ROrdering → ROrdering | .Less => .Greater | .Equal => .Equal | .Greater => .Less
+private theorem ord3_flip (p q : Int) : ord3 p q = flipO (ord3 q p) := by
+  unfold ord3
+  rcases Int.lt_trichotomy p q with h | h | h
+  · have h2 : ¬ q < p := by omega
+    have h3 : ¬ q = p := by omega
+    simp only [h, h2, h3, if_true, if_false]; rfl
+  · subst h; simp only [Int.lt_irrefl, if_true, if_false]; rfl
+  · have h2 : ¬ p < q := by omega
+    have h3 : ¬ p = q := by omega
+    simp only [h, h2, h3, if_true, if_false]; rfl
+theorem pcmp_flip (x y : F64) : partial_cmp x y = (partial_cmp y x).map flipO := by
+  cases x <;> cases y <;> try (simp [partial_cmp]; done)
+  · rename_i s t; cases s <;> cases t <;> simp [partial_cmp] <;> rfl
+  · rename_i s t _; cases s <;> simp [partial_cmp] <;> rfl
+  · rename_i _ _ t; cases t <;> simp [partial_cmp] <;> rfl
+  · simp only [pc_fin, Option.map]; rw [ord3_flip]
+
 end F64
+
+/-- `a > b` is `b < a`, `a >= b` is `b <= a` (Rust's provided PartialOrd methods on f64) -/
+theorem rgt_f64_swap (x y : F64) : (x >. y) = (y <. x) := by
+  unfold RPartialOrd.gt RPartialOrd.lt; show (match F64.partial_cmp x y with | some .Greater => true | _ => false) = (match F64.partial_cmp y x with | some .Less => true | _ => false)
+  rw [F64.pcmp_flip x y]; cases F64.partial_cmp y x <;> try rfl
+  rename_i o; cases o <;> rfl
+theorem rge_f64_swap (x y : F64) : (x >=. y) = (y <=. x) := by
+  unfold RPartialOrd.ge RPartialOrd.le; show (match F64.partial_cmp x y with | some .Greater => true | some .Equal => true | _ => false) = (match F64.partial_cmp y x with | some .Less => true | some .Equal => true | _ => false)
+  rw [F64.pcmp_flip x y]; cases F64.partial_cmp y x <;> try rfl
+  rename_i o; cases o <;> rfl
+theorem req_f64_swap (x y : F64) : (x ==. y) = (y ==. x) := F64.eq_flip x y
 
 @[simp] theorem radd_f64_comm (x y : F64) : (x +. y) = F64.add x y := rfl
